@@ -223,7 +223,13 @@ class Vector(MutableSequence[TScalar]):
 
     @classmethod
     def _unpickle(cls, args: tuple[Any, ...], kwargs: dict[str, Any]) -> Self:
-        return cls(*args, **kwargs)
+        vector = cls(*args, **kwargs)
+        # The constructor infers the value type from the first value; restore the pickled one
+        # (e.g. an int vector whose first remaining value is a bool).
+        value_type = kwargs.get("value_type")
+        if value_type is not None:
+            vector._value_type = value_type
+        return vector
 
     def __repr__(self) -> str:
         """Return repr(self)."""
